@@ -12,17 +12,17 @@ Python                                                     model
 delta_theta = options["delta_theta_0"]                     `init`: delta := delta0
 self.__theta = options["theta_start"]                      `init`: theta := thetaStart
 while self.__theta <= 1.0:                                 `optimize` (first test) / `guard` (later tests)
-    success = super().optimize(...)                        the next oracle value `ok`; log entry pushed;
+    success = super().optimize(...)                        the next oracle value `ok`; `push`: log entry,
                                                            `seed()` inside that solve: `seedOf`
-    if success:
-        self.__results = [extract_results(m) ...]          acc := some theta
-        if self.__theta == 0.0:                            linear := false; cleared += 1
+    if success:                                            `accept`:
+        self.__results = [extract_results(m) ...]            acc := some theta
+        if self.__theta == 0.0:                              `mark`: linear := false; cleared += 1
             linear flags off; clear_transcription_cache()
         if self.__theta >= 1.0: break                      finished true
     else:
         if self.__theta == options["theta_start"]: break   finished false
-        self.__theta -= delta_theta                        theta := theta - delta
-        delta_theta /= 2                                   delta := delta / 2
+        self.__theta -= delta_theta                        `stepBack`: theta := theta - delta
+        delta_theta /= 2                                               delta := delta / 2
         if delta_theta < options["delta_theta_min"]: break finished false
     if self.__theta + delta_theta >= 1.0:                  `advance`
         delta_theta = 1.0 - self.__theta
